@@ -23,6 +23,8 @@ EXTENDS Integers, Sequences, FiniteSets, TLC, Json
 CONSTANTS MaxDepth,
           Focus,                   \* which actions histories are built from ("all" or a property-directed subset)
           Dev_C12_InputMomentum,   \* the pre-hook uses its default argument 0.9, not the context's momentum
+          StreamlineTypeTest,      \* TRUE (as built): `QTensor in types` is never true for a QBytesTensor argument, so streamlining never
+                                   \* records a consumer and clears the activations of EVERY child; FALSE: the documented intent
           Dev_C10_GroupSizeLost    \* loading an unfrozen int2/int4 state into a default-quantized / requantize target loses weight_group_size
 
 \* <<"Linear", "Linear">> is instantiated with wide layers (192 -> 256 -> 8), so that int2/int4 weights get group sizes 96 and 128
@@ -101,12 +103,20 @@ FoldAll(fold, cs, b, isInput) ==
   ELSE FoldAll(Append(fold, <<(IF isInput THEN HookMomentum(Head(cs)) ELSE Head(cs).momentum), b>>), Tail(cs), b, isInput)
 \* a module fed by a quantized tensor (its predecessor quantizes its output) adopts that scale instead
 FedQuantized(i) == i > 1 /\ mods[i - 1].q /\ mods[i - 1].aq # "none"
+\* Streamline (calibrate.py:89-104, 149-155): at the end of a batch the post-hook of the parent container clears
+\* activation_qtype of the children whose quantized output was not consumed by a function returning a quantized tensor.
+\* Intent: module i keeps its activations iff the next module is a ReLU-like function on an integer qtype.
+Streamlining == \E k \in 1..Len(ctx) : ctx[k].streamline
+KeepsActivations(i) ==
+  IF StreamlineTypeTest THEN FALSE
+  ELSE i < Len(mods) /\ mods[i + 1].kind = "Other" /\ mods[i].aq = "qint8"
 CalibBatch(b) ==
   /\ pc = "quantized" /\ Bound /\ ctx # <<>>
   /\ mods' = [i \in 1..Len(mods) |->
                IF mods[i].q /\ mods[i].aq # "none"
                THEN [mods[i] EXCEPT !.insc = IF FedQuantized(i) THEN <<<<"adopt", b>>>> ELSE FoldAll(mods[i].insc, ctx, b, TRUE),
-                                    !.outsc = FoldAll(mods[i].outsc, ctx, b, FALSE)]
+                                    !.outsc = FoldAll(mods[i].outsc, ctx, b, FALSE),
+                                    !.aq = IF Streamlining /\ ~KeepsActivations(i) THEN "none" ELSE @]
                ELSE mods[i]]
   /\ Log([a |-> "CalibBatch", batch |-> b])
   /\ UNCHANGED <<arch, ctx, hooks, modes, saved, pc>>
@@ -233,6 +243,13 @@ EmaLawStep ==
                 /\ (~FedQuantized(i)) => mods'[i].insc = Append(mods[i].insc, <<ctx[1].momentum, b>>)]_vars
 \* C13: the registries mirror the open contexts, so leaving every context restores them
 CalibrationScoped == Len(hooks) = Len(ctx) /\ Len(modes) = Len(ctx) /\ (ctx = <<>> => (hooks = <<>> /\ modes = <<>>))
+\* growth beyond the listed properties (evidence only): with streamlining as documented, a module whose quantized output
+\* is consumed by a quantization-preserving function keeps quantizing its activations
+StreamlineKeepsConsumers ==
+  [][\A b \in Batches :
+       (Len(prog') = Len(prog) + 1 /\ prog'[Len(prog')] = [a |-> "CalibBatch", batch |-> b] /\ Streamlining) =>
+          \A i \in 1..Len(mods) :
+             (mods[i].q /\ mods[i].aq = "qint8" /\ i < Len(mods) /\ mods[i + 1].kind = "Other") => mods'[i].aq = "qint8"]_vars
 InferencePure == [][(Len(prog') = Len(prog) + 1 /\ prog'[Len(prog')].a \in {"Forward", "DeepCopy", "Save", "LibCall", "ForeignBatch"}) => mods' = mods]_vars
 \* C10: a load restores the denotation that was saved
 RoundTripDenotation ==
